@@ -109,7 +109,7 @@ const (
 
 func init() {
 	register(&Prop{ID: "C11", Run: c11Run,
-		Rule: "for each delimiter triple of {${ } :, #{ } |, << >> ::, %( ) ?, ${ } :-, {{ }} |, [[ ]] =>, @ )) ~, %{ %} :, « » ¦, <q> </q> <:>, “ ” |} (separator shorter than, as long as and longer than the suffix; prefix shorter than, as long as and longer than the suffix; delimiters that share no character, that share their leading / trailing character without overlapping, and delimiters outside ASCII whose UTF-8 encodings share their leading bytes): (tok) ALL token strings over {prefix,suffix,separator,a,b} up to a length bound against 7 fixed tables (plain, chain, self cycle, mutual cycle, separator-injecting values, unterminated values, key containing the separator); (gram) templates from the grammar text | prefix key-template [sep default-template] suffix (nesting depth <= 4, repetition, unknown keys, unterminated tails, stray suffix/separator) against random tables whose values are templates incl. self and mutual references; one generator in three draws key names that differ by case or blanks only (a / A / ' a' / 'a ' / 'a b') one in three adds table keys that LOOK LIKE templates (a key text holding a complete placeholder, db.${env}.url), one in three adds property names that CONTAIN the separator (jdbc:url), the same texts being used as key parts of placeholders, and one in three draws plain text from a wide alphabet as well (backslash, quotes, slash, %, $, #, ^, &, !, ~, path fragments C:\\, characters outside ASCII — whatever is not a character of the triple's own delimiters), in inputs and in table values; (fn) the same templates, half of them a placeholder with a nested key part, against lookup FUNCTIONS that are total — the table first, then for every other key the empty string (os.Getenv-style), the decimal length of the key, or its letters and digits in upper case — held against the reference only (the model takes a table); (raw) random strings over the delimiter CHARACTERS, lexed by the model; (concat) pairs of delimiter-balanced templates; (hist) HISTORIES: 2-3 resolvers alive at once, built from separate props.Builder() calls with pairwise different triples and their own tables (half of the histories contain a resolver whose triple shares delimiters with the documented default ${ } : and leaves those options unset on the builder), used interleaved with a preference for resolvers built EARLIER than the latest builder call, on grammar templates of their own syntax (sometimes followed by a placeholder in a sibling's syntax); every use is compared with the reference and the model for that resolver's OWN triple and table and with a resolver built alone. (live) ONE resolver reused while its lookup source CHANGES: a resolver built once over a Go map (props.MapLookup reads the map on every lookup) resolves a small pool of inputs again and again (4-10 steps) while keys of a small pool — ordinary names, names containing the separator, names that look like templates — are added, changed and removed in place between the uses; every use is compared with the reference, the model and a resolver built at that moment, all for the table as it is at that use. (deep) LONG expansion paths: 1..100 placeholders open at the same time (every scale: up to 8, 24, 48, 100), built from the three ways a placeholder opens another one — the value of a known key holds the next placeholder (k0 -> k1 -> ... over up to 101 keys), the default of an unknown key holds it (defaults nested in defaults), the key part holds it (keys nested in keys, each lookup giving the name for the next) — alone and mixed, ending in a plain word, an unknown key or an unterminated value (acyclic) or closed into a true cycle at the far end (the last link refers to a link of the path), plus the control with as many placeholders side by side; compared with the reference, the model and the repetition clause like every batch. One in four gram/raw/concat cases additionally has a sibling resolver with another triple, built and used before the resolver under test is built, between its build and its use, or interleaved with its uses. A batch case is non-trivial when at least one input has a complete placeholder; a history when a resolver is used on an input with a complete placeholder after a later builder call or while relying on builder defaults next to a sibling; a live case when an input with a complete placeholder is resolved after an edit of the table; distinct = distinct canonical case JSON.",
+		Rule: "for each delimiter triple of {${ } :, #{ } |, << >> ::, %( ) ?, ${ } :-, {{ }} |, [[ ]] =>, @ )) ~, %{ %} :, « » ¦, <q> </q> <:>, “ ” |} (separator shorter than, as long as and longer than the suffix; prefix shorter than, as long as and longer than the suffix; delimiters that share no character, that share their leading / trailing character without overlapping, and delimiters outside ASCII whose UTF-8 encodings share their leading bytes): (tok) ALL token strings over {prefix,suffix,separator,a,b} up to a length bound against 7 fixed tables (plain, chain, self cycle, mutual cycle, separator-injecting values, unterminated values, key containing the separator); (gram) templates from the grammar text | prefix key-template [sep default-template] suffix (nesting depth <= 4, repetition, unknown keys, unterminated tails, stray suffix/separator) against random tables whose values are templates incl. self and mutual references; one generator in three draws key names that differ by case or blanks only (a / A / ' a' / 'a ' / 'a b') one in three adds table keys that LOOK LIKE templates (a key text holding a complete placeholder, db.${env}.url), one in three adds property names that CONTAIN the separator (jdbc:url), the same texts being used as key parts of placeholders, and one in three draws plain text from a wide alphabet as well (backslash, quotes, slash, %, $, #, ^, &, !, ~, path fragments C:\\, characters outside ASCII — whatever is not a character of the triple's own delimiters), in inputs and in table values; (fn) the same templates, half of them a placeholder with a nested key part, against lookup FUNCTIONS that are total — the table first, then for every other key the empty string (os.Getenv-style), the decimal length of the key, or its letters and digits in upper case — held against the reference only (the model takes a table); (raw) random strings over the delimiter CHARACTERS, lexed by the model; (concat) pairs of delimiter-balanced templates; (hist) HISTORIES: 2-3 resolvers alive at once, built from separate props.Builder() calls with pairwise different triples and their own tables (half of the histories contain a resolver whose triple shares delimiters with the documented default ${ } : and leaves those options unset on the builder), used interleaved with a preference for resolvers built EARLIER than the latest builder call, on grammar templates of their own syntax (sometimes followed by a placeholder in a sibling's syntax); every use is compared with the reference and the model for that resolver's OWN triple and table and with a resolver built alone. (live) ONE resolver reused while its lookup source CHANGES: a resolver built once over a Go map (props.MapLookup reads the map on every lookup) resolves a small pool of inputs again and again (4-10 steps) while keys of a small pool — ordinary names, names containing the separator, names that look like templates — are added, changed and removed in place between the uses; every use is compared with the reference, the model and a resolver built at that moment, all for the table as it is at that use. (deep) LONG expansion paths: 1..100 placeholders open at the same time (every scale: up to 8, 24, 48, 100), built from the three ways a placeholder opens another one — the value of a known key holds the next placeholder (k0 -> k1 -> ... over up to 101 keys), the default of an unknown key holds it (defaults nested in defaults), the key part holds it (keys nested in keys, each lookup giving the name for the next) — alone and mixed, ending in a plain word, an unknown key or an unterminated value (acyclic) or closed into a true cycle at the far end (the last link refers to a link of the path), plus the control with as many placeholders side by side; compared with the reference, the model and the repetition clause like every batch. One in four gram/raw/concat cases additionally has a sibling resolver with another triple, built and used before the resolver under test is built, between its build and its use, or interleaved with its uses. 600 more live cases use a lookup that keeps one string per key and hands out a pointer to the string it keeps (LookupFn returns *string): every use is held against the table as the steps made it, and after every use the strings the lookup keeps must still be the ones the steps put there. A batch case is non-trivial when at least one input has a complete placeholder; a history when a resolver is used on an input with a complete placeholder after a later builder call or while relying on builder defaults next to a sibling; a live case when an input with a complete placeholder is resolved after an edit of the table; distinct = distinct canonical case JSON.",
 		Assumptions: []string{
 			"delimiter triples are the twelve fixed non-overlapping ones (no delimiter occurs inside another one and no proper tail of one delimiter is a head of another one; eight of them share no character at all); strings are valid UTF-8 (the model lexes characters, the implementation bytes: the same thing on valid UTF-8)",
 			"the model works on token lists (greedy left-to-right lexing for the triple; the resolved placeholder text is re-lexed before lookup); byte-level = token-level matching is validated by the raw stream (random strings and table values over the delimiter CHARACTERS, incl. partial delimiters), not proved",
